@@ -389,6 +389,83 @@ def run(report):
                            {"correspondence": "C04 encode_uri_component vs Just.Percent.encode", "text": t, "model": m, "impl": v}, no_input=True)
             break
     report.coverage["encode_uri_component_calls"] = len(utexts)
+    # the case conversions (heck::transform behind seven functions) on every text over letters of both cases, a digit and
+    # three separators up to a length bound, and random longer ones: against Just.Case and against what the names promise
+    # (the letters and digits of the text in their order, in the case and with the separator of the style)
+    CA = ["a", "b", "A", "B", "1", "-", "_", " "]
+    cmax = 4 if tier == "quick" else 6
+    ctexts = ["".join(x) for k in range(0, cmax + 1) for x in _it.product(CA, repeat=k)]
+    crng = C.case_rng(report.seed, 0, "c04-case")
+    CW = ["foo", "Bar", "BAZ", "x2", "2x", "HTTPServer", "aB", "Ab", "ABc", "a1B", "A1b", "Q", "q", "9", ".", ", ", "!", "-", "_", "__", " ", "/", "é"]
+    ctexts += ["".join(crng.choice(CW) for _ in range(crng.randint(1, 6))) for _ in range(1500 if tier == "quick" else 20000)]
+    CFNS = ["kebabcase", "snakecase", "shoutykebabcase", "shoutysnakecase", "titlecase", "uppercamelcase", "lowercamelcase"]
+
+    def eval_case(chunk):
+        with C.scratch("c04c") as d:
+            open(os.path.join(d, "justfile"), "w").write("".join("v%d_%d := %s('%s')\n" % (i, k, fn, t) for i, t in enumerate(chunk) for k, fn in enumerate(CFNS)))
+            pe = subprocess.run([C.JUST, "--evaluate"], cwd=d, env=dict(C.BASE_ENV), stdin=subprocess.DEVNULL, stdout=subprocess.PIPE, stderr=subprocess.PIPE)
+            vals = dict(re.findall(r'^(v\d+_\d+) +:= "(.*)"$', pe.stdout.decode("utf-8", "replace"), re.M))
+            return [[vals.get("v%d_%d" % (i, k)) for k in range(len(CFNS))] for i in range(len(chunk))]
+
+    cchunks = [ctexts[i:i + 300] for i in range(0, len(ctexts), 300)]
+    cgot = [x for ch in C.pmap(eval_case, cchunks) for x in ch]
+    cm = drv.pbatch([{"op": "case", "s": t} for t in ctexts], chunk=5000)
+    SHAPE = {"kebabcase": r"([a-z0-9]+(-[a-z0-9]+)*)?", "snakecase": r"([a-z0-9]+(_[a-z0-9]+)*)?", "shoutykebabcase": r"([A-Z0-9]+(-[A-Z0-9]+)*)?",
+             "shoutysnakecase": r"([A-Z0-9]+(_[A-Z0-9]+)*)?", "titlecase": r"([A-Z0-9][a-z0-9]*( [A-Z0-9][a-z0-9]*)*)?",
+             "uppercamelcase": r"[A-Za-z0-9]*", "lowercamelcase": r"([a-z0-9][A-Za-z0-9]*)?"}
+    n_case = 0
+    for t, vs, m in zip(ctexts, cgot, cm):
+        stop = False
+        ascii_only = all(ord(ch) < 128 for ch in t)
+        for fn, v in zip(CFNS, vs):
+            n_case += 1
+            rp = {"justfile": "x := %s('%s')\n" % (fn, t), "argv": ["--evaluate", "x"], "observed": v}
+            if v is None:
+                report.failure("c04-case-run:%s" % fn, "%s(%r) did not evaluate" % (fn, t), rp)
+                stop = True
+                break
+            if ascii_only:
+                letters = lambda z: [ch.lower() for ch in z if ch.isalnum()]
+                if letters(v) != letters(t) or not re.fullmatch(SHAPE[fn], v):
+                    report.failure("c04-case-style:%s" % fn, "%s(%r) = %r is not the text's letters and digits written in that style" % (fn, t, v), rp)
+                    stop = True
+                    break
+                if m[fn] != v:
+                    report.failure("c04-model-case:%s" % fn, "%s(%r): Just.Case gives %r, the implementation %r" % (fn, t, m[fn], v),
+                                   dict(rp, correspondence="C04 %s() vs Just.Case" % fn, model=m[fn], impl=v), no_input=True)
+                    stop = True
+                    break
+        if stop:
+            break
+    report.coverage["case_conversion_calls"] = n_case
+    # absolute_path: the working directory joined with the text, cleaned - against Just.Path.absolutePath; the result is
+    # absolute and has nothing left to clean
+    atexts = [t for t in ptexts if len(t) <= (5 if tier == "quick" else 7)]
+
+    def eval_abs(chunk):
+        with C.scratch("c04a") as d:
+            wd = os.path.realpath(d)
+            open(os.path.join(d, "justfile"), "w").write("".join("v%d := absolute_path('%s')\nw%d := absolute_path(v%d)\n" % (i, t, i, i) for i, t in enumerate(chunk)))
+            pe = subprocess.run([C.JUST, "--evaluate"], cwd=wd, env=dict(C.BASE_ENV), stdin=subprocess.DEVNULL, stdout=subprocess.PIPE, stderr=subprocess.PIPE)
+            vals = dict(re.findall(r'^([vw]\d+) +:= "(.*)"$', pe.stdout.decode("utf-8", "replace"), re.M))
+            return wd, [(vals.get("v%d" % i), vals.get("w%d" % i)) for i in range(len(chunk))]
+
+    achunks = [atexts[i:i + 400] for i in range(0, len(atexts), 400)]
+    ares = C.pmap(eval_abs, achunks)
+    areqs = [{"op": "clean", "p": t, "wd": wd} for (wd, _), ch in zip(ares, achunks) for t in ch]
+    am = drv.pbatch(areqs, chunk=5000)
+    agot = [x for _, vals_ in ares for x in vals_]
+    for rq, (v, w), m in zip(areqs, agot, am):
+        t = rq["p"]
+        rp = {"justfile": "x := absolute_path('%s')\n" % t, "argv": ["--evaluate", "x"], "observed": [v, w], "working_directory": rq["wd"]}
+        if v is None or not v.startswith("/") or w != v:
+            report.failure("c04-absolute-path", "absolute_path(%r) = %r in %s: not absolute, or absolute_path of it is %r" % (t, v, rq["wd"], w), rp)
+            break
+        if m["absolute_path"] != v:
+            report.failure("c04-model-path:absolute_path", "absolute_path(%r) in %s: Just.Path gives %r, the implementation %r" % (t, rq["wd"], m["absolute_path"], v),
+                           dict(rp, correspondence="C04 absolute_path() vs Just.Path.absolutePath", model=m["absolute_path"], impl=v), no_input=True)
+            break
+    report.coverage["absolute_path_calls"] = len(areqs)
     # the same programs written in a second textual order: values must not depend on it
     cases2 = []
     for (assigns, overrides, text_order, plan, use_set) in cases[: n // 4]:
